@@ -90,11 +90,19 @@ def table_maps():
             for g in gaps:
                 ticks.append(ticks[-1] + g)
             out.append(tuple(zip(ticks, bp[:k])))
+            # tempo lines that RESTATE the tempo in force (equal neighbours, runs of equal tempi): every assignment
+            # over a two-value alphabet
+            if k >= 2:
+                for sel in itertools.product((120000, 60000), repeat=k):
+                    if any(a == b for a, b in zip(sel, sel[1:])):
+                        out.append(tuple(zip(ticks, sel)))
     return out
 
 
 def long_map(n, gap_cycle=(1, 2)):
     bp = (120000, 60000, 240000, 99999, 333333, 45000)
+    if len(gap_cycle) == 3:  # the three-gap layout restates tempi: runs of 1, 2 and 3 equal tempo lines
+        bp = (120000, 60000, 60000, 240000, 240000, 240000, 99999)
     ticks, t = [], 0
     for i in range(n):
         ticks.append(t)
@@ -161,7 +169,7 @@ def run_shard(shard, ctx):
                     e1.report(ctx, "history", text, PROBE_SRC, ACCEPT, got, "kind %s, ticks in file order %r on a tempo map of %d events: stored timestamp differs from the un-hinted query (or a non-ValueError escaped)" % (kind, list(seq), n), extra_case=dict(kind="hist"))
         return
     if shard[0] in ("table", "longtable", "hugetable"):
-        maps_ = table_maps() if shard[0] == "table" else ([long_map(shard[1]), long_map(shard[1], (3,))] if shard[0] == "longtable" else [long_map(shard[1])])
+        maps_ = table_maps() if shard[0] == "table" else ([long_map(shard[1]), long_map(shard[1], (3,)), long_map(shard[1], (1, 2, 4))] if shard[0] == "longtable" else [long_map(shard[1])])
         for tempo in maps_:
             ctx.node()
             text = mk(sync=["0 = TS 4"] + ["%d = B %d" % tn for tn in tempo])
